@@ -82,6 +82,7 @@ class Sim:
         self.keep_log = keep_log
         self.logbuf = []
         self.max_events = 2_000_000
+        self.lock_waits = 0
         CURRENT = self
 
     # ---------------------------------------------------------------- logging / digest
@@ -449,9 +450,53 @@ class FakeQueueModule:
     Full = _real_queue.Full
 
 
+class SimLock:
+    """threading.Lock under the baton: a SimThread that finds the lock taken parks until it is released; a caller in scheduler
+    context (an application call made from an event) lets the simulation run on, nested, until the holder has released it."""
+
+    def __init__(self):
+        self._locked = False
+        self._waiters = []
+
+    def acquire(self, blocking=True, timeout=-1):
+        sim = CURRENT
+        while self._locked:
+            if not blocking:
+                return False
+            sim.lock_waits += 1
+            cur = sim.current
+            if cur is None:
+                if not sim.heap:
+                    raise HarnessError('lock is never released')
+                sim._step()
+            else:
+                self._waiters.append(cur)
+                sim._yield('lock')
+        self._locked = True
+        return True
+
+    def release(self):
+        if not self._locked:
+            raise RuntimeError('release unlocked lock')
+        self._locked = False
+        if self._waiters:
+            th = self._waiters.pop(0)
+            CURRENT.after(0, lambda: CURRENT._resume(th), 'lock-wake')
+
+    def locked(self):
+        return self._locked
+
+    def __enter__(self):
+        self.acquire()
+        return True
+
+    def __exit__(self, *a):
+        self.release()
+
+
 class FakeThreadingModule:
     Thread = SimThread
-    Lock = _real_threading.Lock
+    Lock = SimLock
     RLock = _real_threading.RLock
     Event = _real_threading.Event
 
